@@ -8,7 +8,7 @@
     explicit ([Panic why], [why] naming the Go expression that panics).
 
     Decimals are the integer scaled by 10^18 ([Base/Dec.v]).  Denominations are classes:
-    0 = "" and 3 = "!bad" (98 = any other invalid string) are invalid; 1 = "stake" (the bond denom,
+    0 = "", 3 = "!bad" and 12 = "htlt!x" (98 = any other invalid string) are invalid; 1 = "stake" (the bond denom,
     held by every actor, a registered token); 2 = "tcoin" (valid, nobody holds it, not a registered
     token); 10, 11 = "htltbnb", "htltinc" (the only classes acceptable as HTLC assets); 99 = any
     other valid denom.  Among the valid classes that can occur together in one coin set (1, 2) the
@@ -26,7 +26,7 @@ Definition res_why (r : res) : Z := match r with Panic w => w | _ => 0 end.
 (** ** Shared vocabulary *)
 Record coin := mkCoin { c_denom : Z; c_amt : option Z }.
 
-Definition denom_valid (d : Z) : bool := negb ((d =? 0) || (d =? 3) || (d =? 98)).
+Definition denom_valid (d : Z) : bool := negb ((d =? 0) || (d =? 3) || (d =? 12) || (d =? 98)).
 
 (** [LegacyDec] results are checked against 315 bits ([maxDecBitLen]) *)
 Definition two315 : Z := 2 ^ 315.
